@@ -70,10 +70,7 @@ func fieldFuncKey(structT types.Type, field int) string {
 
 func (x *Exec) calleeContract(c *ssa.CallCommon) (string, *FuncContract) {
 	key := x.calleeKey(c)
-	if fc, ok := x.C.Funcs[key]; ok {
-		return key, fc
-	}
-	return key, nil
+	return key, x.C.lookupFunc(key)
 }
 
 var purePkgPrefixes = []string{"strings.", "strconv.", "fmt.", "errors.", "time.", "math.", "math/rand.", "math/rand/v2.", "bytes.", "unicode.", "unicode/utf8.",
@@ -127,6 +124,22 @@ func (x *Exec) resultType(c *ssa.CallCommon) types.Type {
 }
 
 func (x *Exec) execCallWith(st *State, c *ssa.CallCommon, args []*Val, fnVal *Val, instr ssa.Value, pos token.Pos) (*Val, error) {
+	v, err := x.execCallInner(st, c, args, fnVal, instr, pos)
+	if err == nil && x.fc != nil {
+		key := x.calleeKey(c)
+		for _, ld := range x.fc.Labels {
+			if _, done := x.labels[ld.Name]; done {
+				continue
+			}
+			if ld.Callee == key || ld.Callee == shortKey(key) || strings.HasSuffix(key, "."+ld.Callee) {
+				x.labels[ld.Name] = st.clone()
+			}
+		}
+	}
+	return v, err
+}
+
+func (x *Exec) execCallInner(st *State, c *ssa.CallCommon, args []*Val, fnVal *Val, instr ssa.Value, pos token.Pos) (*Val, error) {
 	if b, ok := c.Value.(*ssa.Builtin); ok && !c.IsInvoke() {
 		return x.execBuiltin(st, b.Name(), c, args, pos)
 	}
@@ -135,13 +148,16 @@ func (x *Exec) execCallWith(st *State, c *ssa.CallCommon, args []*Val, fnVal *Va
 	if fnVal != nil && fnVal.K == VClosure && fnVal.Clo.Fn != nil && !c.IsInvoke() {
 		key = x.P.funcKey(fnVal.Clo.Fn)
 	}
-	fc := x.C.Funcs[key]
+	fc := x.C.lookupFunc(key)
 	if fc == nil && fnVal != nil && fnVal.K == VScalar && x.pureFuncs[fnVal.T.String()] {
 		key = "ret:pure-extern-func-value"
 	}
 	allArgs := args
 	if c.IsInvoke() {
 		allArgs = append([]*Val{fnVal}, args...)
+	}
+	if err := x.checkCallsClauses(st, key, fc, c, allArgs, pos); err != nil {
+		return nil, err
 	}
 	if fc == nil {
 		if v, handled, err := x.builtinExtern(st, key, c, allArgs, pos); handled {
@@ -294,22 +310,6 @@ func (x *Exec) contractCall(st *State, key string, fc *FuncContract, c *ssa.Call
 	if fc.Monitor == "locked" {
 		x.oblige(st, "requires", short+":lock-held", st.ghost["$heldW"].T, pos, "callee expects the monitor lock to be held", nil)
 	}
-	if x.fc != nil {
-		for _, cr := range x.fc.Calls {
-			if cr.Callee != key && cr.Callee != short && !strings.HasSuffix(key, "."+cr.Callee) {
-				continue
-			}
-			bctx := x.specCtx(st, nil)
-			bctx.inBody = true
-			bctx = bctx.with(vars)
-			t, err := x.specBool(bctx, cr.E)
-			if err != nil {
-				return nil, fmt.Errorf("%s: calls clause for %s: %v", cr.Where, key, err)
-			}
-			x.oblige(st, "calls", cr.Label, t, pos, cr.Src, cr.Tags)
-			x.matchedCalls[cr.Label+"|"+cr.Callee] = true
-		}
-	}
 	pre := st.clone()
 	// lock operations of monitors
 	if err := x.applyModifiesAll(st, fc, vars, pre); err != nil {
@@ -392,6 +392,26 @@ func calleeParamTypes(c *ssa.CallCommon, fc *FuncContract, f *ssa.Function) []ty
 func (x *Exec) applyModifiesAll(st *State, fc *FuncContract, vars map[string]*Val, pre *State) error {
 	if fc.ModAll {
 		x.havocAllHeap(st, "call")
+		// preserved locations keep their pre-call values
+		for _, pe := range fc.Preserves {
+			ctx := &SpecCtx{st: pre, old: pre, vars: vars, pkg: fc.Pkg, locals: false}
+			err := x.frameAllow(ctx, pe, func(key string, whole bool, ref *Term) {
+				s, ok := x.heapSort[key]
+				if !ok {
+					return
+				}
+				prev := x.heapGet(pre, key, s)
+				if whole {
+					st.heap[key] = prev
+				} else {
+					cur := x.heapGet(st, key, s)
+					st.heap[key] = tStore(cur, ref, tSelect(prev, ref))
+				}
+			})
+			if err != nil {
+				return fmt.Errorf("preserves %s: %v", pe.String(), err)
+			}
+		}
 	}
 	for _, m := range fc.Modifies {
 		ctx := &SpecCtx{st: pre, old: pre, vars: vars, pkg: fc.Pkg, locals: false}
@@ -627,3 +647,51 @@ func (x *Exec) modKeysStatic(m *Expr, fc *FuncContract, c *ssa.CallCommon) ([]st
 
 // externals documented to return a non-nil pointer
 var nonNilResult = map[string]bool{"time.NewTimer": true, "time.NewTicker": true, "log/slog.Default": true, "log/slog.New": true, "net/http.NewServeMux": true}
+
+
+// checkCallsClauses emits the `calls <callee> requires <expr>` obligations of the function under verification
+// at this call site (for any callee, contracted or not).
+func (x *Exec) checkCallsClauses(st *State, key string, fc *FuncContract, c *ssa.CallCommon, args []*Val, pos token.Pos) error {
+	if x.fc == nil || len(x.fc.Calls) == 0 {
+		return nil
+	}
+	short := shortKey(key)
+	var vars map[string]*Val
+	for _, cr := range x.fc.Calls {
+		if !(cr.Callee == key || cr.Callee == short || strings.HasSuffix(key, "."+cr.Callee) || (strings.Contains(cr.Callee, "*") && (globKey(cr.Callee, key) || globKey(cr.Callee, short) || globKey("*."+cr.Callee, key)))) {
+			continue
+		}
+		if vars == nil {
+			vars = map[string]*Val{}
+			var names []string
+			if fc != nil {
+				names = x.contractParamNames(key, fc, c)
+			} else if f := x.P.funcs[key]; f != nil {
+				for _, p := range f.Params {
+					names = append(names, p.Name())
+				}
+			}
+			ptypes := calleeParamTypes(c, fc, x.P.funcs[key])
+			for i, a := range args {
+				if i < len(names) && isSMTVal(a) {
+					v := a
+					if i < len(ptypes) && ptypes[i] != nil {
+						v = retype(a, ptypes[i])
+					}
+					vars["callee_"+names[i]] = v
+					vars["arg"+fmt.Sprint(i)] = v
+				}
+			}
+		}
+		bctx := x.specCtx(st, nil)
+		bctx.inBody = true
+		bctx = bctx.with(vars)
+		t, err := x.specBool(bctx, cr.E)
+		if err != nil {
+			return fmt.Errorf("%s: calls clause for %s: %v", cr.Where, key, err)
+		}
+		x.oblige(st, "calls", cr.Label, t, pos, cr.Src, cr.Tags)
+		x.matchedCalls[cr.Label+"|"+cr.Callee] = true
+	}
+	return nil
+}
